@@ -33,6 +33,7 @@
 #include "DOMNamedNodeMapImpl.hpp"
 #include "DOMDocumentImpl.hpp"
 #include "DOMCasts.hpp"
+#include <xercesc/util/XercesVerif.hpp>
 
 namespace XERCES_CPP_NAMESPACE {
 
@@ -82,6 +83,7 @@ DOMDocumentTypeImpl::DOMDocumentTypeImpl(DOMDocument *ownerDoc,
     else
     {
         XMLMutexLock lock(sDocumentMutex);
+        XERCES_VERIF_ACCESS("DOMDocumentTypeImpl.sDocument", 0, sDocumentMutex, 1);
         DOMDocument* doc = sDocument;
         fName = ((DOMDocumentImpl *)doc)->getPooledString(dtName);
         fEntities = new (doc) DOMNamedNodeMapImpl(this);
@@ -157,6 +159,7 @@ DOMDocumentTypeImpl::DOMDocumentTypeImpl(DOMDocument *ownerDoc,
     else
     {
         XMLMutexLock lock(sDocumentMutex);
+        XERCES_VERIF_ACCESS("DOMDocumentTypeImpl.sDocument", 0, sDocumentMutex, 1);
         DOMDocument* doc = sDocument;
         fPublicId = ((DOMDocumentImpl*) doc)->cloneString(pubId);
         fSystemId = ((DOMDocumentImpl*) doc)->cloneString(sysId);
@@ -212,6 +215,7 @@ DOMNode *DOMDocumentTypeImpl::cloneNode(bool deep) const
     else
     {
         XMLMutexLock lock(sDocumentMutex);
+        XERCES_VERIF_ACCESS("DOMDocumentTypeImpl.sDocument", 0, sDocumentMutex, 1);
         newNode = new (sDocument, DOMMemoryManager::DOCUMENT_TYPE_OBJECT) DOMDocumentTypeImpl(*this, false, deep);
     }
 
@@ -342,6 +346,7 @@ void DOMDocumentTypeImpl::setPublicId(const XMLCh *value)
         fPublicId = doc->cloneString(value);
     else {
         XMLMutexLock lock(sDocumentMutex);
+        XERCES_VERIF_ACCESS("DOMDocumentTypeImpl.sDocument", 0, sDocumentMutex, 1);
         fPublicId = ((DOMDocumentImpl *)sDocument)->cloneString(value);
     }
 }
@@ -353,6 +358,7 @@ void DOMDocumentTypeImpl::setSystemId(const XMLCh *value)
         fSystemId = doc->cloneString(value);
     else {
         XMLMutexLock lock(sDocumentMutex);
+        XERCES_VERIF_ACCESS("DOMDocumentTypeImpl.sDocument", 0, sDocumentMutex, 1);
         fSystemId = ((DOMDocumentImpl *)sDocument)->cloneString(value);
     }
 }
@@ -364,6 +370,7 @@ void DOMDocumentTypeImpl::setInternalSubset(const XMLCh *value)
         fInternalSubset = doc->cloneString(value);
     else {
         XMLMutexLock lock(sDocumentMutex);
+        XERCES_VERIF_ACCESS("DOMDocumentTypeImpl.sDocument", 0, sDocumentMutex, 1);
         fInternalSubset = ((DOMDocumentImpl *)sDocument)->cloneString(value);
     }
 }
